@@ -16,6 +16,7 @@ tie/search: the sanitizer run IS the correspondence for everything not
        sanitizer report, signal, escaped exception or watchdog timeout is a
        concrete failing history (shrunk by delta debugging).
 """
+import collections
 import copy
 import os
 import random
@@ -38,11 +39,17 @@ DATA = os.path.join(vlib.VERIF, "harness", "c01", "data")
 
 def gen_script(rnd, schema_ids, alphabet, length):
     lines = ["1 create", "2 create", "2 destroy"]      # logical 2: a destroyed id; logical 3: never issued
+    # round 4: half of the histories run with a notification handler installed that, like a frontend's, makes session-level
+    # API calls from inside the notification (status, option, state label, current schema)
+    if rnd.random() < 0.5:
+        lines.append("0 handler 1")
     if schema_ids:
         lines.append("1 select_schema %s" % rnd.choice(schema_ids))
     while len(lines) < length:
         r = rnd.random()
         lg = 1 if rnd.random() < 0.93 else rnd.choice([2, 3])
+        if rnd.random() < 0.01:
+            lines.append("0 handler %d" % rnd.randint(0, 1))
         if r < 0.45:
             for _ in range(rnd.randint(1, 7)):
                 t = rnd.random()
@@ -148,7 +155,7 @@ def mutants(tree):
     return out
 
 
-def run_script(exe, shared, staging, work, name, lines, timeout=240):
+def run_script(exe, shared, staging, work, name, lines, timeout=150):
     d = os.path.join(work, name)
     user = os.path.join(d, "user")
     os.makedirs(user, exist_ok=True)
@@ -162,7 +169,8 @@ def run_script(exe, shared, staging, work, name, lines, timeout=240):
     for l in out.split("\n"):
         if l.count("|") >= 5:
             last = int(l.split("|", 1)[0])
-    return dict(rc=rc, done=done, last_line=last, stderr=err, nlines=len(lines))
+    hc = sum(int(l.split()[1]) for l in out.split("\n") if l.startswith("HANDLER-CALLS "))
+    return dict(rc=rc, done=done, last_line=last, stderr=err, nlines=len(lines), handler_calls=hc)
 
 
 def crash_class(r):
@@ -185,16 +193,19 @@ def crash_class(r):
 
 def shrink(exe, shared, staging, work, lines, cls, budget=30):
     """delta-debug the script (keeping the first create lines) while the same crash class reproduces"""
-    head = [l for l in lines[:4] if l.split()[1] in ("create", "destroy", "select_schema")]
+    head = [l for l in lines[:5] if l.split()[1] in ("create", "destroy", "select_schema", "handler")]
     body = lines[len(head):]
     n, trials = 2, 0
+    tmo = 150
+    if cls == "hang":      # every reproducing trial waits for its timeout: fewer and shorter trials
+        budget, tmo = min(budget, 12), 40
     while len(body) >= 2 and trials < budget:
         chunk = max(1, len(body) // n)
         reduced = False
         for i in range(0, len(body), chunk):
             cand = body[:i] + body[i + chunk:]
             trials += 1
-            r = run_script(exe, shared, staging, work, "shrink%d" % trials, head + cand)
+            r = run_script(exe, shared, staging, work, "shrink%d" % trials, head + cand, timeout=tmo)
             if (r["rc"] != 0 or not r["done"]) and crash_class(r) == cls:
                 body, n, reduced = cand, max(n - 1, 2), True
                 break
@@ -278,7 +289,17 @@ def run(ctx):
     rnd.shuffle(allm)
     # round 3: valid but unusual configurations (key-binder redirect chains/cycles, every punctuation definition shape, odd menus)
     vars_ = [(sid, None, name, t) for sid, name, t in c01aim.variants(trees)]
-    chosen = [("vt", None, "unmutated", trees["vt"]), ("vtab", None, "unmutated", trees["vtab"])] + vars_ + allm[:(40 if quick else 700)]
+    # the sample of mutants is stratified by (schema, top-level section): round-robin over the sections, so that a small
+    # sample (quick) still visits every component's configuration; within a section the (shuffled) order decides
+    by_sec = collections.OrderedDict()
+    for m in allm:
+        by_sec.setdefault((m[0], m[1][0]), []).append(m)
+    picked, want = [], (64 if quick else 700)
+    while len(picked) < want and any(by_sec.values()):
+        for sec in list(by_sec):
+            if by_sec[sec] and len(picked) < want:
+                picked.append(by_sec[sec].pop())
+    chosen = [("vt", None, "unmutated", trees["vt"]), ("vtab", None, "unmutated", trees["vtab"])] + vars_ + picked
     default_yaml = open(os.path.join(vlib.REPO, "data", "minimal", "default.yaml")).read()
 
     def prep(args):
@@ -359,6 +380,8 @@ def run(ctx):
                       found_input=True)
     ctx.coverage.update({
         "evaluations": len(jobs), "api_calls_executed": nops,
+        "notifications_handled_by_a_reentrant_handler": sum(r.get("handler_calls", 0) for r in results),
+        "histories_with_reentrant_handler": sum(1 for j in jobs if "0 handler 1" in j[3][:6]),
         "distinct_nontrivial": len({(tuple(j[4].get("mutated_path") or []), j[4].get("replacement"), j[4]["schema"]) for j in jobs}),
         "rule": "adversarial API histories (typing, arbitrary keycodes/masks over int, indices over size_t incl. SIZE_MAX, raw input bytes, carets, paging, "
                 "list iteration, options, schema switches incl. unknown ids, dead and never-issued ids, every free twice) on the stock schemas and on "
